@@ -79,6 +79,30 @@ def opsC17Addr : List (String × Handler) := [
         | .panic _ => "panic"
       | none => "bad-op"
     | _ => "bad-op"),
+  ("addr.tlb_parse", fun
+    | [b] => match bitsArg b with
+      | some bs =>
+        let ac : Option (BitVec 32 × BitVec 32) → String := fun
+          | some (d, p) => s!"{d.toNat}/{p.toNat}"
+          | none => "-"
+        match parseTlbBits bs with
+        | .ok .none => "ok none"
+        | .ok (.extern x) => s!"ok extern {bitsStr x}"
+        | .ok (.std a wc addr) => s!"ok std {ac a} {wc.toInt} {outBV addr}"
+        | .ok (.var a ln wc x) => s!"ok var {ac a} {ln.toNat} {wc.toInt} {bitsStr x}"
+        | .err _ => "err"
+        | .panic _ => "panic"
+      | none => "bad-op"
+    | _ => "bad-op"),
+  ("addr.tlb_bits", fun
+    | [b] => match bitsArg b with
+      | some bs => match parseTlbBits bs with
+        | .ok m => match tlbBits m with
+          | some r => "ok " ++ bitsStr r
+          | none => "err"
+        | _ => "err"
+      | none => "bad-op"
+    | _ => "bad-op"),
   ("addr.anycast", fun
     | [w, a, d, p] => match w.toInt?, hexBV a, d.toNat?, p.toNat? with
       | some wi, some ab, some dn, some pn =>
